@@ -21,6 +21,21 @@ def lastRet : List Act → Int → Int
 theorem mark_length (v : List Byte) : (mark v).length = v.length := by
   cases v <;> simp [mark]
 
+theorem unmarkB (b : UInt8) (h : b.toNat < 128) : (b ||| 128) &&& 127 = b := by
+  apply UInt8.eq_of_toBitVec_eq
+  simp
+  ext i hi
+  have h7 : b.toBitVec.toNat.testBit 7 = false := Nat.testBit_lt_two_pow (by simpa using h)
+  have : i = 0 ∨ i = 1 ∨ i = 2 ∨ i = 3 ∨ i = 4 ∨ i = 5 ∨ i = 6 ∨ i = 7 := by omega
+  rcases this with h|h|h|h|h|h|h|h <;> subst h <;> simp <;>
+    first | decide | (simp [BitVec.getElem_eq_testBit_toNat] at *; simp [h7])
+
+/-- a request id (top bit clear) is restored exactly when the reply mark is taken back after a failed send -/
+theorem unmark_mark (v : List Byte) (h : (v.headD 0).toNat < 128) : Reply.unmark (mark v) = v := by
+  cases v with
+  | nil => rfl
+  | cons b r => simp [mark, Reply.unmark, unmarkB b (by simpa using h)]
+
 theorem runActs_noctx (acts : List Act) (h : HRes) :
     (runActs false acts h).frames = h.frames ∧ (runActs false acts h).s = h.s ∧
     (runActs false acts h).ret = lastRet acts h.ret := by
@@ -39,7 +54,7 @@ theorem runActs_done (acts : List Act) (h : HRes) (h0 : h.s.rdlen = 0) :
 
 /-- with the request still pending: the first reply attempt (if any) puts exactly one frame on the
     stream, everything after it is refused -/
-theorem runActs_armed (acts : List Act) (h : HRes) (h0 : h.s.rdlen ≠ 0) :
+theorem runActs_armed (acts : List Act) (h : HRes) (h0 : h.s.rdlen ≠ 0) (hv : (h.s.val.headD 0).toNat < 128) :
     (runActs true acts h).ret = lastRet acts h.ret ∧
     match firstReply acts with
     | none => (runActs true acts h).frames = h.frames ∧ (runActs true acts h).s = h.s
@@ -50,13 +65,17 @@ theorem runActs_armed (acts : List Act) (h : HRes) (h0 : h.s.rdlen ≠ 0) :
   | cons a as ih =>
     cases a with
     | ret v =>
-      have := ih { h with ret := v, results := h.results ++ ["ret"] } h0
+      have := ih { h with ret := v, results := h.results ++ ["ret"] } h0 hv
       simpa [runActs, lastRet, firstReply] using this
     | defer =>
-      have := ih { h with results := h.results ++ ["nodefer"] } h0
+      have := ih { h with results := h.results ++ ["nodefer"] } h0 hv
       simpa [runActs, lastRet, firstReply] using this
     | reply m => simp [runActs, lastRet, firstReply, sreply, h0, runActs_done]
     | replyNull => simp [runActs, lastRet, firstReply, sreply, h0, runActs_done]
+    | replyFail m =>
+      have hs : ({ h.s with val := Reply.unmark (mark h.s.val) } : SIn) = h.s := by rw [unmark_mark _ hv]
+      have := ih { h with results := h.results ++ [if Err.BadArgument.code < 0 then "refused" else "ok"] } h0 hv
+      simpa [runActs, lastRet, firstReply, sreply, h0, hs] using this
 
 theorem all_zero_iff (v : List Byte) : (v.all (· == 0)) = !(v.any (· ≠ 0)) := by
   induction v with
@@ -89,7 +108,7 @@ theorem request_frames_aux (idlen : Nat) (val data : List Byte) (acts : List Act
         by_cases hc : (data.take idlen).any (· ≠ 0) = true
         · -- a reply context is offered
           have hall : (data.take idlen).all (· == 0) = false := by rw [all_zero_iff, hc]; rfl
-          have ha := runActs_armed acts { s := ⟨idlen, idlen, data.take idlen⟩ } (by simpa using h0)
+          have ha := runActs_armed acts { s := ⟨idlen, idlen, data.take idlen⟩ } (by simpa using h0) (by simpa using hm)
           simp only [h0, hl, hm, hc, hall, if_true, if_false, false_or, or_false, Bool.false_eq_true]
           have htake : (mark (data.take idlen)).take idlen = mark (data.take idlen) := by
             apply List.take_of_length_le; rw [mark_length, hlen]; exact Nat.le_refl _
